@@ -159,6 +159,17 @@ theorem draw_good (w : RW) (force : Bool) (extra : List Row) (h : Inv w) : Good 
 
 theorem clear_managed (w : RW) : managed (clear w) = 0 := rfl
 
+/-- a change of the target: nothing on the screen is managed any more, all of it is safe from now on -/
+theorem retarget_good (w : RW) (lim : Option (Limiter.Cfg × Limiter.St)) (h : Inv w) :
+    Good w { w with n := 0, z := 0, stale := true, limiter := lim } := by
+  have hs : safe { w with n := 0, z := 0, stale := true, limiter := lim } = w.scr := by
+    simp [safe, managed]
+  refine ⟨⟨by simp [managed], ?_⟩, ⟨⟨w.scr.drop (w.scr.length - managed w), ?_⟩, ⟨[], by simp⟩⟩⟩
+  · rw [hs]
+    have := h.log_safe
+    exact this.trans (List.take_sublist _ _)
+  · rw [hs]; simp [safe]
+
 theorem clear_good (w : RW) (h : Inv w) : Good w (clear w) := by
   obtain ⟨hfit, hlog⟩ := h
   have hm : managed w = w.z + w.n := rfl
@@ -294,6 +305,7 @@ theorem step_good (w : RW) (op : MOp) (h : Inv w) (hc : Clean w op) : Good w (st
     | mpClear => exact clear_good w h
     | mpSuspend out => exact suspend_good w out h
     | align b => exact Good.refl w h
+    | retarget => exact retarget_good w _ h
     | bar k op => exact barStep_good w k op h hc
 
 /-- every operation of the history is clean in the state it is applied in -/
@@ -869,6 +881,7 @@ theorem frameOk_step (w : RW) (op : MOp) (h : FrameOk w) (hc : CleanF w op) : Fr
     | mpClear => exact frameOk_clear w h
     | mpSuspend out => exact frameOk_suspend w out
     | align b => exact h
+    | retarget => exact ⟨fun hs => (by cases hs), fun j hj hf hm => h.synced j hj hf hm⟩
     | bar k op => exact frameOk_barStep w k op h hc
 
 def CleanRunF : RW → List MOp → Prop
